@@ -66,6 +66,47 @@ def symbolic() -> bool:
     return sym.have_ctx()
 
 
+STATEMENTS = {}
+
+
+def stated_lemma(name: str, props, inputs, statement, requires=(), note=""):
+    """A lemma given as a formula schema  statement(**inputs)  (proved for all inputs like any lemma).
+    Such a lemma can be APPLIED elsewhere with use_lemma(name, **terms): the instance is handed to the
+    solver as a fact where something is being assumed (loop invariants, preconditions), and is simply
+    `True` where something is being claimed -- the usual lemma call of a deductive verifier."""
+    from .contract import lemma as _lemma
+
+    STATEMENTS[name] = statement
+
+    def body(**kw):
+        claim(statement(**kw), f"{name}: statement holds for all inputs")
+
+    import inspect as _i
+
+    body.__signature__ = _i.Signature([_i.Parameter(k, _i.Parameter.POSITIONAL_OR_KEYWORD) for k in inputs])
+    return _lemma(name, props, inputs=inputs, body=body, requires=requires, note=note)
+
+
+def use_lemma(name: str, **terms):
+    """instance of a stated lemma (see stated_lemma); records the dependency so that the lemma is verified
+    together with whatever uses it"""
+    from . import sym
+
+    if not sym.have_ctx():
+        return True
+    c = sym.ctx()
+    from . import engine
+
+    engine.USED_STUBS.add(f"lemma:{name}")
+    if c.ghost.get("mode", "claim") != "assume":
+        return True
+    c.quant_depth += 1  # instances must be fork-free
+    try:
+        return STATEMENTS[name](**terms)
+    finally:
+        c.quant_depth -= 1
+
+
 def claim(c, label: str):
     """State a claim inside a lemma body / ghost code (dual use)."""
     from . import sym
